@@ -219,6 +219,25 @@ def main(tier, only=None):
             if min(acl) < 4 * 256 or max(ents.values()) > 40: log('C08: runtime base %s: xattr blocks did not land in the last groups (%s)' % (name, acl)); continue
             fsweep._cache[name] = d_; os.unlink(p)
             bases = bases + [name]
+    # runtime-built bases without resize_inode and with a RAID stride layout, 16 groups, file data right behind the inode tables: growing beyond 32 / 64 groups adds
+    # group-descriptor blocks, so the inode tables of the backup groups have to move by exactly the number of new blocks
+    growwin = {}
+    if not only:
+        DBG = tool('debugfs')
+        for name, opts in ((('stride_ext2', ['-t', 'ext2', '-O', '^resize_inode', '-E', 'stride=8']),) if quick else
+                           (('stride_ext2', ['-t', 'ext2', '-O', '^resize_inode', '-E', 'stride=8']), ('stride_ext3', ['-t', 'ext3', '-O', '^resize_inode', '-E', 'stride=4', '-J', 'size=1']),
+                            ('nostride_ext2', ['-t', 'ext2', '-O', '^resize_inode']))):
+            p = os.path.join(scratch(), name + '.img')
+            rc, out = run([tool('mke2fs'), '-q', '-F', '-b', '1024', '-g', '256', '-N', '256', '-U', '6b33f586-a183-4383-921d-30ab132db9b9'] + opts + [p, '4096'], timeout=120)
+            if rc != 0: log('C08: runtime base %s: mke2fs exit %s' % (name, rc)); continue
+            big = os.path.join(scratch(), 'st.big'); open(big, 'wb').write(bytes(((k * 13 + 7) & 0xff) | 1 for k in range(1024 * 700)))
+            sm = os.path.join(scratch(), 'st.small'); open(sm, 'wb').write(b'small' * 300)
+            sp = os.path.join(scratch(), 'st.dbg'); open(sp, 'w').write('write %s /big\nwrite %s /s1\nmkdir /d\nwrite %s /d/s2\nsymlink /d/l %s\nwrite %s /big2\n' % (big, sm, sm, 'x' * 80, big))
+            run([DBG, '-w', '-f', sp, p], timeout=120)
+            if run([E2FSCK, '-fn', p], timeout=120)[0] != 0: log('C08: runtime base %s not usable' % name); continue
+            fsweep._cache[name] = open(p, 'rb').read(); os.unlink(p)
+            bases = bases + [name]
+            growwin[name] = [4097 + 256 * k for k in (1, 8, 15, 16, 17, 24, 40, 47, 48, 49, 56)] + [8192, 8193, 8194, 8449, 10240, 12288, 16384, 16385, 16641]
     TREES = {b: xtree.tree(Image(fsweep.base_data(b))) for b in bases}
     jobs = []
     for b in bases:
@@ -226,6 +245,11 @@ def main(tier, only=None):
         cur = im.blocks_count; bpg = im.bpg
         hi = min(3 * cur, cur + 6 * bpg)
         sizes = set()
+        if b in growwin:
+            for sz in sorted(set(growwin[b])):
+                jobs.append(('%s/to%d' % (b, sz), b, (str(sz),), sz % 2 == 0))
+            jobs.append(('%s/-M' % b, b, ('-M', None), True))
+            continue
         if b in flexwin:
             for s in range(*flexwin[b]):
                 jobs.append(('%s/to%d' % (b, s), b, (str(s),), s % 16 == 0))
@@ -250,7 +274,7 @@ def main(tier, only=None):
         if st == 'bad':
             ck.violation(cid, {'base': j[1], 'args': j[2], 'what': msg, 'resize2fs': r})
     ck.add(evaluations=len(jobs), distinct_nontrivial=stat.get('ok', 0), states=len(jobs), transitions=len(jobs), traces_validated_against_impl=len(jobs),
-           rule='populated corpus image x every target size (quick: all sizes within 6 blocks of a group boundary or of the current size, every 13th otherwise) from 64 blocks to 3x / +6 groups, plus -M -P -b/-s -S; plus runtime-built filesystems whose xattr/data/directory blocks lie in the last groups while their inodes are low (blocks relocate, inodes stay), plus runtime-built filesystems whose directories (multi-block with an empty block / a block of hard links only / indexed), xattr-carrying files and symlinks have their inodes in the last groups so that every shrink renumbers them; plus runtime-built filesystems with 16/32/64-group flex groups (and packed_meta_blocks) x every shrink target that ends inside the metadata area of a flex group; '
+           rule='populated corpus image x every target size (quick: all sizes within 6 blocks of a group boundary or of the current size, every 13th otherwise) from 64 blocks to 3x / +6 groups, plus -M -P -b/-s -S; plus runtime-built filesystems without resize_inode (RAID stride layout, data right behind the inode tables) grown across the 32- and 64-group descriptor-block boundaries, plus runtime-built filesystems whose xattr/data/directory blocks lie in the last groups while their inodes are low (blocks relocate, inodes stay), plus runtime-built filesystems whose directories (multi-block with an empty block / a block of hard links only / indexed), xattr-carrying files and symlinks have their inodes in the last groups so that every shrink renumbers them; plus runtime-built filesystems with 16/32/64-group flex groups (and packed_meta_blocks) x every shrink target that ends inside the metadata area of a flex group; '
                 'oracle: success => reported size = s_blocks_count, e2fsck -fn = 0, xck.check clean, xck.tree unchanged, and on the traced runs the error-flag invariant over every prefix of the write trace; '
                 'refusal => byte-identical image; mid-run failure => flagged superblock.  distinct_nontrivial = successful resizes',
            samples=[jobs[0][0], jobs[len(jobs) // 3][0], jobs[-1][0]])
